@@ -44,6 +44,22 @@ pub fn build(rng: &mut Rng, o: &mut Outcome) -> Spreadsheet {
             o.count("tables", 1);
         }
     }
+    if rng.chance(1, 5) {
+        // a chart (drawing part, chart part, their relationships and content types)
+        let si = rng.below(n as u64) as usize;
+        let name = book.get_sheet(&si).unwrap().get_name().to_string();
+        let q = format!("'{}'", name.replace('\'', "''"));
+        let series = vec![format!("{}!$B$2:$B$6", q), format!("{}!$C$2:$C$6", q)];
+        let mut from = umya_spreadsheet::structs::drawing::spreadsheet::MarkerType::default();
+        let mut to = umya_spreadsheet::structs::drawing::spreadsheet::MarkerType::default();
+        from.set_coordinate("H2");
+        to.set_coordinate("N14");
+        let mut chart = Chart::default();
+        chart.new_chart(rng.pick(&[ChartType::LineChart, ChartType::BarChart, ChartType::PieChart, ChartType::AreaChart]).clone(), from, to, series.iter().map(|s| s.as_str()).collect());
+        chart.set_title(format!("Chart <&> {}", uid));
+        book.get_sheet_mut(&si).unwrap().add_chart(chart);
+        o.feat("chart");
+    }
     if rng.chance(1, 6) {
         // opaque macro payload: makes the package an .xlsm (content types, vbaProject part)
         book.set_macros_code(b"\xd0\xcf\x11\xe0fake-vba-project".to_vec());
